@@ -294,7 +294,7 @@ class Witness(list):
         return ' -> '.join('B%d@%d%s' % (b, ln, (':' + t) if t else '') for b, ln, t in self)
 
 
-def find_path(fn, start, on_event, refine=True, start_facts=frozenset(), on_exit=None, edge_ok=None, max_states=200000):
+def find_path(fn, start, on_event, refine=True, start_facts=frozenset(), on_exit=None, edge_ok=None, max_states=200000, on_block_end=None):
     """Depth-first search for a feasible path.
 
     start: 'entry' | Event (search begins after it) | (Block, succ_index) edge
@@ -363,6 +363,12 @@ def find_path(fn, start, on_event, refine=True, start_facts=frozenset(), on_exit
                 facts = transfer(fn, ev, facts)
         if pruned:
             continue
+        if on_block_end is not None:
+            r = on_block_end(b, facts)
+            if r == 'target':
+                return Witness(trail + [(b.id, b.line, 'cond ' + (show(b.cond)[:50] if b.cond else ''))])
+            if r == 'stop':
+                continue
         if b.id == fn.exit.id:
             if on_exit is not None and on_exit(facts):
                 return Witness(trail + [(b.id, 0, 'exit')])
